@@ -132,7 +132,13 @@ pub fn c01_strategy() -> BoxedStrategy<Case> {
         goto: 2,
         ..W::default()
     };
-    arb_case(w, 1..=2, 0..=4, 6..40, 2)
+    // now and then a topic with many subscriptions (fan-out beyond a handful)
+    let many = W { nt: 1, ns: 20, p_async: 0.3, publish: 14, publish_many: 1, create_sub: 1, delete_sub: 1, create_topic: 0, delete_topic: 0, pull_ri: 8, pull_all: 4, stream_open: 1, ..W::default() };
+    prop_oneof![
+        12 => arb_case(w, 1..=2, 0..=4, 6..40, 2),
+        1 => arb_case(many, 1..=1, 9..=20, 5..20, 1),
+    ]
+    .boxed()
 }
 
 pub fn c02_strategy() -> BoxedStrategy<Case> {
@@ -199,7 +205,7 @@ pub fn deadline_strategy(with_modify: bool) -> BoxedStrategy<Case> {
         1 => Just(Op::StreamOpen { s: s0, max_out: 10 }),
         1 => Just(Op::StreamDrop { k: 0 }),
         1 => (1u8..4, any::<bool>()).prop_map(move |(k, sb)| Op::PollDrop { op: Box::new(Op::Pull { s: s0, max: 2, ri: true, a: false }), k, settle_between: sb }),
-        8 => (0u16..=65535, probe).prop_map(move |(d, delta_us)| Op::GoTo { s: s0, d, delta_us }),
+        3 => (0u16..=65535, probe.clone()).prop_map(move |(d, delta_us)| Op::GoTo { s: s0, d, delta_us }),
         3 => prop_oneof![Just(1u64), Just(50), Just(100), Just(1_000), Just(4_000), Just(9_990), Just(10_101)].prop_map(|ms| Op::Advance { ms }),
         2 => refs.clone().prop_map(move |refs| Op::Ack { s: s0, refs, a: false }),
         wm => (refs.clone(), mod_secs.clone()).prop_map(move |(refs, secs)| Op::Modify { s: s0, refs, secs, a: false }),
@@ -208,15 +214,28 @@ pub fn deadline_strategy(with_modify: bool) -> BoxedStrategy<Case> {
         (wm / 4).max(1) => (arb_long_refs(true), mod_secs.clone()).prop_map(move |(refs, secs)| Op::Modify { s: s0, refs, secs, a: false }),
         1 => arb_long_refs(false).prop_map(move |refs| Op::Ack { s: s0, refs, a: false }),
     ];
-    (any::<u64>(), arb_phase(), dl, vec(step, 4..28))
-        .prop_map(move |(sched_seed, phase_us, dl, body)| {
+    // a probe: position the clock relative to a delivery's deadline, then look at once
+    let probe_pair = (0u16..=65535, probe, prop_oneof![Just(1i32), Just(10)]).prop_map(move |(d, delta_us, max)| vec![Op::GoTo { s: s0, d, delta_us }, Op::Pull { s: s0, max, ri: true, a: false }]);
+    let steps = prop_oneof![
+        30 => step.prop_map(|o| vec![o]),
+        8 => probe_pair,
+    ];
+    (any::<u64>(), arb_phase(), dl, vec(steps, 4..26), 0u8..12)
+        .prop_map(move |(sched_seed, phase_us, dl, body, jump)| {
+            let body: Vec<Op> = body.into_iter().flatten().collect();
             let mut ops = vec![
                 Op::CreateTopic { t: t0, a: false },
                 Op::CreateSub { s: s0, t: t0, dl, push: 0, a: false },
                 Op::CreateSub { s: S { p: 0, i: 1 }, t: t0, dl: 10, push: 0, a: false },
+            ];
+            if jump == 0 {
+                // a server that has been up for 50 days (millisecond counters beyond 32 bits)
+                ops.push(Op::Advance { ms: 4_300_000_123 });
+            }
+            ops.extend([
                 Op::Publish { t: t0, n: 2, payload: Payload::plain(), a: false },
                 Op::Pull { s: s0, max: 1, ri: true, a: false },
-            ];
+            ]);
             ops.extend(body);
             Case { sched_seed, phase_us, fanout_seed: 0, points: vec![], ops }
         })
